@@ -34,6 +34,8 @@ WORKER = os.path.join(HERE, 'sim', 'worker.py')
 REPLAYS = os.path.join(HERE, 'replays')
 BATCH_TIMEOUT_S = 600
 MAX_MINIMISE = 6
+MAX_REPORT = 12     # signatures confirmed + reported per campaign (lowest run
+                    # first); further distinct signatures are only counted
 
 
 def log(*a):
@@ -340,7 +342,11 @@ def main(argv=None):
     os.makedirs(REPLAYS, exist_ok=True)
     reported = []
     harness = list(c.harness_errors)
-    for n, sig in enumerate(unlisted):
+    if len(unlisted) > MAX_REPORT:
+        log('%d further distinct unlisted signature(s) not individually '
+            'confirmed (first: %s)' % (len(unlisted) - MAX_REPORT,
+                                       unlisted[MAX_REPORT]))
+    for n, sig in enumerate(unlisted[:MAX_REPORT]):
         run, v = by_sig[sig][0]
         plan = c.results[run].get('plan')
         hseed = c.hash_seeds[v.get('xhash_slot', run % 3)]
